@@ -6,7 +6,7 @@ rm -rf $E; mkdir -p $E
 rsync -a --exclude work --exclude replays --exclude 'harness-rt/target*' --exclude .git /verif/ $E/verif/
 git clone -q /repo $E/repo
 mkdir -p $E/verif/work
-export VERIF_REPO=$E/repo VERIF_MUTVERIFY=$E/mutverify
+export VERIF_REPO=$E/repo VERIF_MUTVERIFY=$E/mutverify VERIF_JOBS=${VERIF_JOBS:-5}
 rm -f $E/verif/repo-link
 for item in "$@"; do
   set -- $item; id=$1; shift
